@@ -133,9 +133,15 @@ br_rsa_oaep_unpad(const br_hash_class *dig,
 	 * At that point, padding was verified, and we are now allowed
 	 * to make conditional jumps.
 	 */
+#ifdef BR_VERIF
+	BR_VERIF_PUBLIC(&s, sizeof s);
+#endif
 	if (s) {
 		size_t plen;
 
+#ifdef BR_VERIF
+		BR_VERIF_PUBLIC(&zlen, sizeof zlen);
+#endif
 		plen = 2 + hlen + zlen;
 		k -= plen;
 		memmove(buf, buf + plen, k);
